@@ -53,7 +53,9 @@ PROPERTIES = {
             "conditional chains: the lowering of out.CondSelect (what if/elif chains, match statements and for-break chains become in the tracer's output) is under contract -- one case statement over a common value with constant choices, else the nested if chain in source order, default last (542 arrangements of condition kinds, defaults, returns / breaks / transitions, 1-2 open blocks); that the tracer BUILDS the CondSelect with the branches in source order (_prepare_ast.py ast.For / ast.Match / ast.If) is NOT",
             "NOT decided: function inlining with return-value redirects (_value_branch._Redirect), capture of run-time indices at access time (_IntrinsicElemAccess): whole-AST transformations over the tracer state, outside the per-function contracts built so far",
             "input SEQUENCES are covered by induction over activations only in the sense that every activation runs the same proved step structure; no simulator executes emitted designs",
+            "BOUNDED (contracts.c05_arrays.array_assign_sweep, native): whole-array assignments in the three modes -- the statements of the emitted process are evaluated for one activation (6 forms x 5 kinds of source), a pushed array signal starts the process with its default",
         ],
+        "extra": ["contracts.c05_arrays.array_assign_sweep"],
         "canaries": [
             {"name": "if-continuation", "contract": "cohdl._compiler.frontend._generate_ir:IrGenerator._apply_impl", "case": "if:body=own,orelse=x+y,1-open", "file": "cohdl/_compiler/frontend/_generate_ir.py",
              "old": "                        for open in open_orelse:\n                            ret_blocks[open] = open\n                    elif not any_orelse:", "new": "                        for open in open_body:\n                            ret_blocks[open] = open\n                    elif not any_orelse:"},
@@ -233,7 +235,7 @@ PROPERTIES = {
         ],
     },
     "C08": {
-        "modules": ["contracts.core_models", "contracts.c08_temporaries", "contracts.c08_cleanup", "contracts.c03_refvisit", "contracts.c12_actuals", "contracts.c02_assembler", "contracts.c07_always", "contracts.c03_if", "contracts.c08_merged"],
+        "modules": ["contracts.core_models", "contracts.c08_temporaries", "contracts.c08_cleanup", "contracts.c03_refvisit", "contracts.c12_actuals", "contracts.c02_assembler", "contracts.c07_always", "contracts.c03_if", "contracts.c08_merged", "contracts.c08_select"],
         "level": "proof",
         "explanation": "the definite-assignment analysis of compiler-generated intermediates (detect_uninitialized_temporaries / search_invalid_temporaries) is proved sound against the textbook definite-assignment semantics of if / case (with and without default) / sequence by structural induction: sidecar loop invariants for the statement loop and the case-branch loop, the function's own contract as induction hypothesis for recursive calls, sets of object identities as z3 sets; every read (direct or through a reference path) is shown to reach the check; cleanup_unused is proved to remove only assignments whose root is read nowhere; StatemachineContext._check_temporaries is proved to accept a state only if the first access to every intermediate is a write; case subjects and choices are checked together with the run-time indices of their reference paths, inline-code results are definitions, event-guarded blocks are conditional; the test of every `if` is a boolean cast without reference path (c03_if); convert_sequential replaces every temporary of an always expression by a signal (c07_always).",
         "assumptions": COMMON_ASSUME + [
@@ -242,7 +244,7 @@ PROPERTIES = {
             "temporaries marked maybe_uninitialized are exempt from the analysis by design (the user opted out)",
             "NOT decided: read/write order recomputed on the emitted process text; cleanup_bool_cast (cosmetic pass) is under a bounded structural check only",
         ],
-        "extra": ["contracts.c07_visit.visit_completeness"],
+        "extra": ["contracts.c07_visit.visit_completeness", "contracts.c08_select.select_default_sweep"],
         "canaries": [
             {"name": "case-intersection", "contract": "cohdl._compiler.frontend._generate_ir:ConvertInstance.detect_uninitialized_temporaries", "case": "any-context", "file": "cohdl/_compiler/frontend/_generate_ir.py",
              "old": "                            always_defined &= branch_temporaries", "new": "                            always_defined.difference_update(branch_temporaries)"},
